@@ -650,6 +650,18 @@ class Builder:
                 conv = _match_to_if(st)
                 if conv is not None:
                     return self.run(conv + stmts[i + 1:])
+            if isinstance(st, ast.With) and self.track_effects:
+                # the context (torch.no_grad(), a lock ...) is part of what the block does: entered, body, left
+                for it in st.items:
+                    ce = self.t(it.context_expr)
+                    ce = ce if isinstance(ce, Rat) else app("const", str(ce))
+                    self.stores["!effects"] = app("seq", self.stores.get("!effects", sym("!effects")), app("with", ce))
+                    if it.optional_vars is not None:
+                        self.assign(it.optional_vars, app("entered", ce))
+                leave = ast.copy_location(ast.Expr(value=ast.Call(func=ast.Name(id="__leave_context__", ctx=ast.Load()), args=[], keywords=[])), st)
+                if any(isinstance(n, ast.Return) for n in ast.walk(st)):
+                    return self.run(list(st.body) + stmts[i + 1:])
+                return self.run(list(st.body) + [leave] + stmts[i + 1:])
             if isinstance(st, ast.With) and any(isinstance(n, ast.Return) for n in ast.walk(st)):
                 # leaving the context manager is not part of the summary: a return inside the block ends the function
                 return self.run(list(st.body) + stmts[i + 1:])
